@@ -270,9 +270,12 @@ func c07Local(r *ev.Reporter) {
 		d, dedup := depth, true
 		if cfg.cache > 0 {
 			dedup = false
-			d = depth - 1
+			d = 3 // 52^3 = 1.4*10^5 sequences (quick), 52^4 = 7.3*10^6 (thorough)
 			if rs == rules.NameFastHotStuff {
-				d = depth - 2
+				d = 2 // 154^2 = 2.4*10^4 (quick), 154^3 = 3.7*10^6 (thorough)
+			}
+			if !r.Quick() {
+				d++
 			}
 		}
 		st := seq.Run(seq.Config{NumOps: len(e.ops), MaxDepth: d, Dedup: dedup, New: func() seq.System { return e.newSys() },
